@@ -53,7 +53,7 @@ def plan(tier, seed):
     # vectorised entry points, end points
     for (p, n) in [(1, 2), (2, 2), (4, 2), (2, 3), (3, 1)] + ([(6, 2), (3, 3)] if thorough else []):
         Q.append(('vec', None, p, n, {}))
-    for (p, n, dt) in [(16, 2, 'int32'), (8, 2, 'int16'), (12, 3, 'int32')] + ([(15, 2, 'uint16'), (31, 2, 'int32')] if thorough else []):
+    for (p, n, dt) in [(9, 2, 'int16'), (8, 2, 'int16'), (11, 3, 'int32')] + ([(15, 2, 'uint16'), (16, 2, 'int32')] if thorough else []):
         Q.append(('vec', None, p, n, {'dtype': dt}))
     for n in (1, 2, 3):
         for p in range(1, (62 // n) + 1):
